@@ -26,6 +26,8 @@ Es == {None, RZero, R(1, 10), R(1, 2)}
 Ks == {RInt(-3), R(-1, 2), RInt(2)}
 Ps == {RInt(-2), RInt(-1), RInt(2), R(1, 2)}
 Mags == {[v |-> v, e |-> e] : v \in Vs, e \in Es} \cup {[v |-> k, e |-> None] : k \in Ks}
+\* values whose uncertainty interval reaches or crosses zero (relative uncertainty >= 100 %)
+WideMags == {[v |-> RInt(2), e |-> RInt(3)], [v |-> RInt(5), e |-> RInt(7)], [v |-> ROne, e |-> ROne], [v |-> RInt(-2), e |-> RInt(3)]}
 UnitPairs == {<<u, w>> : u \in {"m", "c:m", "k:m"}, w \in {"m", "c:m", "k:m"}}
              \cup {<<u, w>> : u \in {"g", "k:g"}, w \in {"g", "k:g"}}
 \* a bare number converts to (prefixed) radians - the documented number -> angle rule; "" stands for "no unit"
@@ -43,6 +45,10 @@ Expand(a) ==
   \cup (IF IsNone(a.e) THEN {ScenN("op", op, "nm", num, a, b, ROne, "-", "-") : op \in BinOps2, b \in Mags, num \in {"py", "np"}}
         ELSE {})
   \cup {Scen("op", op, "self", a, a, ROne, "-", "-") : op \in BinOps2}            \* both operands are the SAME object
+  \cup {Scen("op", op, "mm", a, b, ROne, "-", "-") : op \in {"div", "mul"}, b \in WideMags}
+  \cup {Scen("op", op, "mm", w, a, ROne, "-", "-") : op \in {"div", "mul"}, w \in WideMags}
+  \cup (IF a = [v |-> RInt(2), e |-> R(1, 2)]
+        THEN {Scen("op", "pow", "m", w, DummyM, p, "-", "-") : w \in WideMags, p \in Ps} ELSE {})
   \cup {Scen("op", "neg", "m", a, DummyM, ROne, "-", "-")}
   \cup {Scen("op", "pow", "m", a, DummyM, p, "-", "-") : p \in Ps}
   \cup {Scen("conv", "to", "q", a, DummyM, ROne, uw[1], uw[2]) : uw \in UnitPairs}
